@@ -4,7 +4,6 @@ import Cctp.Lemmas.Invariants
 import Cctp.Model.Tx
 import Cctp.Model.Queries
 import Cctp.Model.Genesis
-import Cctp.Gen.WriteSets
 /-
   C15 — each transaction touches only the state it is documented to change.
 -/
@@ -174,50 +173,6 @@ theorem untouched_outside_documented (ext : Ext) (cfg : Cfg) (w : World) (faults
     (Stated as: their result type carries no state; recorded here so the claim is visible.) -/
 theorem queries_and_export_are_pure (ext : Ext) (st : Store) (nilReq : Bool) (q : Query) :
     ∃ r : R QResp, query ext st nilReq q = r ∧ ∃ g : R Genesis, Genesis.exportG st = g := ⟨_, rfl, _, rfl⟩
-
-/-! ### the static half: for every code path — regenerated from /repo's call graph on every run -/
-
-/-- documented store-key classes per entry point, by the names of the key constants in types/keys.go. -/
-def documentedClasses : String → List String
-  | "msg:ReceiveMessage" => ["UsedNonceKeyPrefix"]
-  | "msg:SendMessage" | "msg:SendMessageWithCaller" | "msg:DepositForBurn" | "msg:DepositForBurnWithCaller" => ["NextAvailableNonceKey"]
-  | "msg:ReplaceMessage" | "msg:ReplaceDepositForBurn" => []
-  | "msg:AcceptOwner" => ["OwnerKey", "PendingOwnerKey"]
-  | "msg:UpdateOwner" => ["PendingOwnerKey"]
-  | "msg:UpdateAttesterManager" => ["AttesterManagerKey"]
-  | "msg:UpdatePauser" => ["PauserKey"]
-  | "msg:UpdateTokenController" => ["TokenControllerKey"]
-  | "msg:UpdateMaxMessageBodySize" => ["MaxMessageBodySizeKey"]
-  | "msg:AddRemoteTokenMessenger" | "msg:RemoveRemoteTokenMessenger" => ["RemoteTokenMessengerKeyPrefix"]
-  | "msg:EnableAttester" | "msg:DisableAttester" => ["AttesterKeyPrefix"]
-  | "msg:UpdateSignatureThreshold" => ["SignatureThresholdKey"]
-  | "msg:PauseBurningAndMinting" | "msg:UnpauseBurningAndMinting" => ["BurningAndMintingPausedKey"]
-  | "msg:PauseSendingAndReceivingMessages" | "msg:UnpauseSendingAndReceivingMessages" => ["SendingAndReceivingMessagesPausedKey"]
-  | "msg:LinkTokenPair" | "msg:UnlinkTokenPair" => ["TokenPairKeyPrefix"]
-  | "msg:SetMaxBurnAmountPerMessage" => ["PerMessageBurnLimitKeyPrefix"]
-  | "func:InitGenesis" => ["AttesterKeyPrefix", "AttesterManagerKey", "BurningAndMintingPausedKey", "MaxMessageBodySizeKey",
-      "NextAvailableNonceKey", "OwnerKey", "PauserKey", "PerMessageBurnLimitKeyPrefix", "RemoteTokenMessengerKeyPrefix",
-      "SendingAndReceivingMessagesPausedKey", "SignatureThresholdKey", "TokenControllerKey", "TokenPairKeyPrefix", "UsedNonceKeyPrefix"]
-  | _ => []   -- queries, ExportGenesis and anything new: nothing
-
-/-- **For every code path**: the store-key classes that any function reachable from a handler (in the static
-    call graph regenerated from the current source) can Set or Delete lie within the documented classes of
-    that handler; in particular no write resolves to an unknown key class. -/
-theorem static_writes_within_documented :
-    (Gen.writeSets.all fun e => e.2.all fun c => (documentedClasses e.1).contains c) = true := by decide
-
-/-- **Queries and genesis export write nothing**, statically: no Set/Delete is reachable from any of the 19
-    query methods or from ExportGenesis. -/
-theorem queries_and_export_write_nothing :
-    (["keeper:Attester", "keeper:Attesters", "keeper:BurnMessageVersion", "keeper:BurningAndMintingPaused", "keeper:LocalDomain",
-      "keeper:LocalMessageVersion", "keeper:MaxMessageBodySize", "keeper:NextAvailableNonce", "keeper:PerMessageBurnLimit",
-      "keeper:PerMessageBurnLimits", "keeper:RemoteTokenMessenger", "keeper:RemoteTokenMessengers", "keeper:Roles",
-      "keeper:SendingAndReceivingMessagesPaused", "keeper:SignatureThreshold", "keeper:TokenPair", "keeper:TokenPairs",
-      "keeper:UsedNonce", "keeper:UsedNonces", "func:ExportGenesis"].all fun n => Gen.writeSets.lookup n == some []) = true := by
-  decide
-
-/-- all 25 transaction handlers, 19 queries and the two genesis functions were found by the extractor. -/
-theorem entry_points_complete : Gen.writeSets.length = 46 := by decide
 
 /-! non-vacuity: a concrete successful pause writes exactly the burn flag, which is documented -/
 example : ∃ o, handle ⟨id, fun _ _ => none, fun _ => none, fun _ => none, id, fun _ _ => false, fun _ => false, id⟩
